@@ -168,7 +168,7 @@ theorem chase_rel {z : Zone} {o : LName} (wf : WF z o) {t : Nat} (ht : t ≠ T_C
           simp [chaseFrom, hrd, hlt, hrdt, hseen, chase, hres, hil, this, finTail]
         | data rr =>
           rw [hres] at hnode
-          obtain ⟨hil, hrt⟩ := hnode
+          obtain ⟨hil, hrt, _⟩ := hnode
           have : ¬ rr.type = T_CNAME := by rw [hrt]; exact ht
           simp [chaseFrom, hrd, hlt, hrdt, hseen, chase, hres, hil, this, finTail]
         | noData =>
